@@ -172,3 +172,36 @@ func RunOnInputs(m sim.TimeSteppingModel, in data.ND3Float64, init []float64) Re
 	}
 	return res
 }
+
+// RunCells runs several cells (no table parameters) in ONE vectorised Run: cellParams[c] is cell c's parameter vector,
+// inputs[c][input][t] its series; states is the rectangular state array to start from (nil = InitialiseStates) and
+// is updated in place. Returns out[cell][output][t] and the state array.
+func RunCells(name string, cellParams [][]float64, inputs [][][]float64, T int, states data.ND2Float64) ([][][]float64, data.ND2Float64) {
+	n := len(cellParams)
+	rows := make([][]float64, len(cellParams[0]))
+	for i := range rows {
+		rows[i] = make([]float64, n)
+		for c := 0; c < n; c++ {
+			rows[i][c] = cellParams[c][i]
+		}
+	}
+	m := New(name, rows)
+	desc := m.Description()
+	if states == nil {
+		states = m.InitialiseStates(n)
+	}
+	in := Inputs3(inputs, len(desc.Inputs), T)
+	out := data.NewArray3DFloat64(n, len(desc.Outputs), T)
+	m.Run(in, states, out)
+	res := make([][][]float64, n)
+	for c := range res {
+		res[c] = make([][]float64, len(desc.Outputs))
+		for o := range res[c] {
+			res[c][o] = make([]float64, T)
+			for t := 0; t < T; t++ {
+				res[c][o][t] = out.Get3(c, o, t)
+			}
+		}
+	}
+	return res, states
+}
